@@ -168,6 +168,10 @@ def gen_text(rng, opts, nlines, eols=("\n",), final_newline=True, secrets=True):
             ln = dict(rng.choice(out))
         ln["eol"] = rng.choice(eols)
         out.append(ln)
+    if out and rng.random() < 0.06:
+        # a file saved by a tool that writes a byte order mark: U+FEFF glued to the first token of the first line
+        out[0] = {"kind": "plain", "lead": "", "trail": "", "toks": [["\ufeff!", "benign"], ["configuration", "benign"], ["saved", "benign"]],
+                  "seps": [" ", " ", " "], "eol": out[0]["eol"]}
     if out and not final_newline:
         out[-1]["eol"] = ""
     return out
